@@ -8,7 +8,7 @@ LIMIT = 30.0
 RULE = ("triangle meshes (grids, height fields, fans, annuli, closed polyhedra, tori, Delaunay, unions, non-manifold books, Moebius "
         "strips; random flips / cyclic rotations / element reorderings / relabellings / similarity transforms; float32/float64, "
         "int32/int64) and tet meshes (Kuhn, Delaunay, subsets; flips), all vertices used, non-degenerate; plus oriented manifold "
-        "meshes with aniso in {0, scalar, pair}. distinct = hash of the case; non-trivial = at least one obtuse or non-right element "
+        "meshes with aniso in {0, scalar, pair}, 30% of them 1e4 diameters away from the origin, and three exactly symmetric ones (regular icosahedron, 3x3 torus). distinct = hash of the case; non-trivial = at least one obtuse or non-right element "
         "(measured: some off-diagonal stiffness entry > 1e-9) and >= 2 elements")
 TRUSTED = ["scipy csc_matrix((data,(i,j))) duplicate summation and inferred shape (modelled as triplet lists)",
            "curvature_tria output is taken from the implementation for aniso cases (curvature itself is C17)"]
@@ -41,11 +41,24 @@ def generate(rng, tier):
             v = gm.jitter(v, rng, 0.1)
         if fc.min_tria_quality(v, t) < 0.05:
             continue
+        if rng.random() < 0.3:
+            # world / scanner coordinates: the same surface 1e4 diameters away from the origin (float64 vertices)
+            P = np.array(v, dtype=float)
+            size = np.abs(P - P.mean(0)).max() + 1e-300
+            d = np.array([rng.gauss(0, 1) for _ in range(3)])
+            v = (P + d / np.linalg.norm(d) * size * 1e4).tolist()
+            fam = fam + "_far"
         mode = k % 4
         aniso = [0.0, rng.choice([0.5, 2.0, 10.0]), [rng.choice([0.0, 1.0, 5.0]), rng.choice([0.0, 3.0, 50.0])], [0.0, 0.0]][mode]
         cases.append({"kind": "tria", "family": "aniso_" + fam, "v": v, "t": t, "lump": rng.random() < 0.5,
                       "vdtype": "float64", "tdtype": "int64", "aniso": aniso, "aniso_smooth": rng.choice([0, 1, 3, 10])})
         k += 1
+    # exactly symmetric meshes (regular icosahedron, 3 x 3 torus): the pooled curvature direction of a triangle can be parallel to
+    # its normal, so that the projection into the triangle plane is pure rounding noise (finding F23, seeded change C01_E)
+    for fam, (v, t), sm in (("ico_regular", gm.icosahedron(), 0), ("torus33", gm.torus(3, 3), 1), ("torus33", gm.torus(3, 3), 3)):
+        v, t = gm.compact(v, t)
+        cases.append({"kind": "tria", "family": "aniso_" + fam, "v": v, "t": t, "lump": True, "vdtype": "float64", "tdtype": "int64",
+                      "aniso": 0.0, "aniso_smooth": sm})
     # thin but valid triangles (zig-zag strips of caps and needles, smallest angle 1e-2 .. 1e-5): the measure of an element
     # must come from a formula that survives them, in single and in double precision
     for k in range(10 if tier == "quick" else 80):
